@@ -125,23 +125,33 @@ class Ed25519Key(PKey):
             private_data = private_ciphertext
         else:
             cipher = Transport._cipher_info[ciphername]
-            key = bcrypt.kdf(
-                password=b(password),
-                salt=bcrypt_salt,
-                desired_key_bytes=cipher["key-size"] + cipher["block-size"],
-                rounds=bcrypt_rounds,
-                # We can't control how many rounds are on disk, so no sense
-                # warning about it.
-                ignore_few_rounds=True,
-            )
-            decryptor = Cipher(
-                cipher["class"](key[: cipher["key-size"]]),
-                cipher["mode"](key[cipher["key-size"] :]),
-                backend=default_backend(),
-            ).decryptor()
-            private_data = (
-                decryptor.update(private_ciphertext) + decryptor.finalize()
-            )
+            if "mode" not in cipher:
+                # AEAD ciphers: known to Transport, not supported for key files
+                raise SSHException("Invalid key")
+            try:
+                key = bcrypt.kdf(
+                    password=b(password),
+                    salt=bcrypt_salt,
+                    desired_key_bytes=cipher["key-size"]
+                    + cipher["block-size"],
+                    rounds=bcrypt_rounds,
+                    # We can't control how many rounds are on disk, so no
+                    # sense warning about it.
+                    ignore_few_rounds=True,
+                )
+                decryptor = Cipher(
+                    cipher["class"](key[: cipher["key-size"]]),
+                    cipher["mode"](key[cipher["key-size"] :]),
+                    backend=default_backend(),
+                ).decryptor()
+                private_data = (
+                    decryptor.update(private_ciphertext)
+                    + decryptor.finalize()
+                )
+            except ValueError:
+                # empty salt or zero rounds (bcrypt), or a ciphertext which
+                # is not a whole number of cipher blocks
+                raise SSHException("Invalid key")
 
         message = Message(_unpad_openssh(private_data))
         if message.get_int() != message.get_int():
